@@ -678,9 +678,9 @@ class AutonomousStateMachine(StateMachine):
 
     def on_enable(self) -> None:
         super().on_enable()
-        if self.is_executing:
-            # a previous run was never disabled: end it so this one starts
-            # from the first state
+        if self.is_executing or self._StateMachine__state is not None:
+            # a previous run was never disabled (or left a state selected):
+            # end it so this one starts from the first state
             self.done()
         self.__engaged = True
 
